@@ -11,12 +11,28 @@ DATA = ('setData', 'getData', 'hasData', 'removeData', 'openData', 'createData')
 GRP = ('hasGroup', 'openGroup', 'removeGroup', 'createLink', 'openOptGroup')
 
 
-def accesses(fn):
+_PROG = [None]
+
+
+def accesses(fn, _depth=0):
     """[(kind, op, key)] storage accesses with their literal key (None when the key is not a literal)"""
     out = []
     for c in fn.calls():
         nm = c.callee.get('name')
         cls = c.callee.get('cls') or ''
+        if not cls and _PROG[0] is not None and _depth == 0 and (c.callee.get('q') or '').startswith('nix::hdf5::'):
+            # a file-local helper that is given the key as a literal: its accesses are the caller's (one level)
+            tgt = _PROG[0].funcs.get(c.callee.get('usr'))
+            lits = {j: str_arg(a) for j, a in enumerate(real_args(c)) if a is not None and isinstance(str_arg(a), str)}
+            if tgt is not None and tgt.body is not None and lits:
+                for kind, op, k, c2 in accesses(tgt, 1):
+                    if k is None:
+                        a2 = real_args(c2)
+                        ka = a2[1] if op == 'createLink' and len(a2) > 1 else (a2[0] if a2 else None)
+                        r = unwrap(ka) if ka is not None else None
+                        if r is not None and r.k == 'ref' and r.decl.get('kind') == 'param' and r.decl.get('pidx') in lits:
+                            out.append((kind, op, lits[r.decl.get('pidx')], c))
+            continue
         if not cls.startswith('nix::hdf5::'):
             continue
         kind = 'attr' if nm in ATTR else ('data' if nm in DATA else ('group' if nm in GRP else None))
@@ -44,6 +60,7 @@ def role(fn):
 
 
 def run(prog, rep, only=None, floor=40):
+    _PROG[0] = prog
     sem = Sem(prog)
     rule = rep.rule('R-KEY', 'per backend field: writer, clearer and reader use the same literal key and store kind; constructors/header write what getters/checkHeader read', floor=floor)
     classes = sorted(set(f.cls for f in prog.funcs.values() if f.cls and f.cls.startswith('nix::hdf5::') and f.cls.endswith('HDF5') and (only is None or f.cls in only)))
@@ -85,6 +102,13 @@ def run(prog, rep, only=None, floor=40):
             missing = [k for k in wk if k not in rk]
             rule.check(not missing, key + '|write-read', rep.where(roles['writer'][0]), key,
                        'written %s is read back by the getter' % sorted(wk), 'the setter writes %s but the getter reads %s: the value is lost (now or after reopen)' % (sorted(missing), sorted(rk)))
+            # a value setter stores: it never removes the key it is responsible for (that is the none_t overload's job)
+            for wf in roles['writer']:
+                if any('none_t' in p['type'] for p in wf.params):
+                    continue
+                for kind, op, k, c in accesses(wf):
+                    if op in ('removeAttr',) and ((kind, k) in wk or k in wk):
+                        rule.bad('%s|%s|setter-removes' % (key, k), rep.where(c), wf.label(), 'the value setter removes "%s" for some values instead of storing them: such a value (0, empty) reads back as "not set"' % k)
             # write-through: the stored value derives from the setter's parameter
             from ..sem import Flow
             for wf in roles['writer']:
@@ -93,7 +117,7 @@ def run(prog, rep, only=None, floor=40):
                 fl = Flow(sem, wf)
                 pnames = set(p['name'] for p in wf.params)
                 for kind, op, k, c in accesses(wf):
-                    if op in ('setAttr', 'setData') and k is not None and len(real_args(c)) >= 2:
+                    if op in ('setAttr', 'setData') and k is not None and len(real_args(c)) >= 2 and (c.callee.get('cls') or '').startswith('nix::hdf5::'):
                         varg = real_args(c)[1]
                         org = fl.origins(varg)
                         okv = any(o[0] == 'param' and o[1] in pnames for o in org)
